@@ -103,8 +103,28 @@ def runEntryOp (inp out : Json) : Json :=
        [{ prop := "C06", code := "config_error_not_reported", detail := s!"{cfg}: {String.ofList (stdout.toList.take 300)}" }] else []) ++
     (if jbool out "repeatDiffers" then
        [{ prop := "C10", code := "output_varies", detail := s!"{cfg}: the same call gave different bytes" }] else [])
+  -- C02 (bash word breaks, scenario `wb`): bash keeps the typed word up to its last COMP_WORDBREAKS character (the list of
+  -- the user's bash, from the environment) and replaces the rest: every emitted candidate, put behind that part, extends
+  -- the typed word
+  let wb := (jstr (jget inp "wb")).toList
+  let wbFails : List AFail :=
+    if wb.isEmpty || crashed || exit != 0 || jisNull envv "COMP_WORDBREAKS" then [] else
+    let W := (jstr (jget envv "COMP_WORDBREAKS")).toList
+    let cutAt := ((List.range wb.length).filter (fun k => match wb[k]? with | some ch => W.elem ch | none => false)).getLast?
+    let kept := match cutAt with | some k => wb.take (k + 1) | none => []
+    match Spec.decodeBash body.toList with
+    | none => []
+    | some dec =>
+      if jstr (jget envv "COMP_TYPE") == "63" && dec.recs.length != 1 then [] else   -- list-only mode prints display texts
+      (dec.recs.filterMap (fun r =>
+        match Spec.readInsert .bash .dflt false r.insert with
+        | .ok ([v], _) =>
+          if Str.hasPrefix (kept ++ v) wb then none
+          else some { prop := "C02", code := "bash_wordbreak_prefix", detail := s!"typed {String.ofList wb} with COMP_WORDBREAKS {String.ofList W}: bash keeps {String.ofList kept} and inserts {String.ofList v}" }
+        | _ => none)).take 1
+  let fails := fails ++ wbFails
   verdict true "" fails
-    [("shell", Json.str (if sh.isSome then shell else "(unknown)")), ("nargs", Json.num args.length), ("ancestor", Json.str (jstr (jget inp "ancestor"))),
+    [("wb", Json.bool (!wb.isEmpty)), ("shell", Json.str (if sh.isSome then shell else "(unknown)")), ("nargs", Json.num args.length), ("ancestor", Json.str (jstr (jget inp "ancestor"))),
      ("empty", Json.bool (body == "")), ("stderr", Json.bool (stderr != ""))]
 
 end Driver
